@@ -17,6 +17,7 @@ the 64-byte `Marshal` form, a nil signature (`Signature{}` with nil point) is `-
   g1add <P> <Q> | g1mul <P> <k> | g1unm <bytes>
   recover <k> <js|-> <id> <sig> …        → ok <sig|-> | PANIC
   gen|lgen <k> <js|-> <id> <sig> …         → <add><gen>,… <groupSign|-> | PANIC   (GroupSignGenerator.AddWitnessSign per arrival)
+  hashg1 <msg> <refH(m)>                 → <refH(m)>   (Go: the code's H(m); reference = crypto/sha256 + math/big in the harness)
   g2add <P> <Q> | g2mul <P> <k>          → <G2 marshal> (`00` = infinity)
   aggpk <g2base> <k1> …                  → ok <AggregatePubkeys of kᵢ·g₂> | nil
   dkg <msg> <ghash> <hm> <g2base> <k> <n> <m> <js|-> seeds(n) ids(n) coeffs(n·k) arrival(m)   (msg, ghash, seeds: Go only)
@@ -152,6 +153,12 @@ def step (_ : Unit) (line : String) : Unit × String :=
         if es.any (fun e => e.1 ≥ 2 ^ 256) then "bad-op"
         else if hasDup (es.map Prod.fst) then "dup-ids" else showRes (recoverEntries k' js' es)
       | _, _, _ => "bad-op"
+    | ["hashg1", msg, pt] =>
+      -- hash-to-curve is not modelled: the line carries the harness's independent reference point
+      match ofHex? msg, sig? pt with
+      | some _, some (some p) =>
+        if G1.isOnCurve curve p && p != .inf then toHex (G1.marshal p) else "bad-op"
+      | _, _ => "bad-op"
     | ["g2add", a, b] =>
       match g2? a, g2? b with
       | some p, some q => showG2 (G2.add fp p q)
